@@ -36,9 +36,9 @@ HARNESS_LIBS = S.LIB_SUBSET
 DRIVER = 'drv_dirs'
 DRIVER_FULL = 'drv_loop_full'
 GEN_SCRIPTS = ['gen_c09.py', 'gen_c10.py', 'gen_c15.py', 'gen_c05.py', 'gen_c06.py', 'gen_dirs.py']
-MODULES = ['Alpaqa.Props.Directions']
+MODULES = ['Alpaqa.Props.Directions', 'Alpaqa.Props.DirectionsLoop']
 EXTRA_SOURCES = ['Alpaqa/Model/Directions.lean', 'Alpaqa/Model/DirectionsPanoc.lean', 'Alpaqa/Gen/Dirs.lean',
-                 'Alpaqa/Proofs/Directions.lean', 'Driver/Dirs.lean', 'Driver/DirsCommon.lean',
+                 'Alpaqa/Proofs/Directions.lean', 'Alpaqa/Proofs/PanocSized.lean', 'Driver/Dirs.lean', 'Driver/DirsCommon.lean',
                  'Driver/LoopFull.lean']
 
 
@@ -197,6 +197,8 @@ def gen_sequence(rng, L, d=None):
             if rng.random() < 0.2:                                  # curvature condition violated
                 pn = [a + b for a, b in zip(pk, [xn[i] - x[i] for i in range(n)])]
                 gn = [a - b for a, b in zip(gk, [xn[i] - x[i] for i in range(n)])]
+            elif rng.random() < 0.12:                               # y = 0 (a linear ψ): zero curvature; the
+                pn, gn = list(pk), list(gk)                         # structured provider forces the pair in
             gn_ = rng.choice([gam, gam, gam / 2])
             ops.append(f'upd {f2h(gam)} {f2h(gn_)} {vec2p(weird(x))} {vec2p(weird(xn))} {vec2p(weird(pk))} '
                        f'{vec2p(weird(pn))} {vec2p(weird(gk))} {vec2p(weird(gn))}')
@@ -310,9 +312,64 @@ def gen_full_run(rng, d=None, **over):
         op['hess'] = '1'
         op['provgi'] = '1'
         op['provhpsi'] = str(int(rng.random() < 0.4))
+    if rng.random() < 0.08:
+        # a linear ψ (Q = 0, no quartic term, no general constraints) on a bounded box: every pair has
+        # y = ∇ψₙ − ∇ψₖ = 0 — the zero-curvature point of the L-BFGS providers (forced in by the structured one)
+        n = op.nat('n')
+        op.update({'m': '0', 'Q': S.kvvec([0.0] * (n * n)), 'q4': S.kvvec([0.0] * n), 'A': S.kvvec([]),
+                   'b': S.kvvec([]), 'Dlb': S.kvvec([]), 'Dub': S.kvvec([]), 'y0': S.kvvec([]), 'Sig': S.kvvec([]),
+                   'Clb': S.kvvec([-8.0] * n), 'Cub': S.kvvec([8.0] * n), 'l1': S.kvvec([]), 'linear': '1',
+                   'nanat': '0'})
+        if rng.random() < 0.6:
+            # a small first step (large L₀) and some iterations, so that the iterates stay inside the box for a
+            # while (J = everything: the unmasked `lbfgs.apply` is the one that runs)
+            op['L0'] = f2h(rng.choice([64.0, 256.0]))
+            op['maxiter'] = str(max(int(op.get('maxiter', '0')), rng.choice([4, 8, 20])))
     for k, v in over.items():
         op[k] = str(v)
     return op
+
+
+INNER_EVENTS = ('igradpsi', 'ihessL', 'ihesspsi', 'ig', 'igradgi')
+
+
+def nonfinite_direction_monitor(op_line, out_line):
+    """C05 on the real PANOC run: a direction with a non-finite entry (e.g. from a forced zero-curvature pair
+    of StructuredLBFGSDirection, ρ = 1/0) must be rejected — the iteration's τ is 0 — and the provider is reset.
+    → (message | None, number of such directions)"""
+    r = S.parse_out(out_line)
+    evs = r['events']
+    cnt = 0
+    it = -1                         # index of the callback the current events belong to
+    for i, e in enumerate(evs):
+        if e[0] == 'cb':
+            it += 1
+        if e[0] != 'dapply':
+            continue
+        t = S.T(e[1:])
+        t.flt()
+        n = len(t.vec())
+        # the harness appends the call's result (flag, q) after the provider returned: to the `dapply` section
+        # itself, or — when the provider called the problem — to the last nested `EV i…` section that follows it
+        j = i
+        while j + 1 < len(evs) and evs[j + 1][0] in INNER_EVENTS:
+            j += 1
+        tail = evs[j][-(n + 2):]
+        if len(tail) != n + 2 or tail[0] not in ('0', '1') or tail[1] != str(n):
+            return f'dapply event without a readable result: {" ".join(evs[j])[:200]}', cnt
+        ok = tail[0] == '1'
+        q = [h2f(w) for w in tail[2:]]
+        if ok and not all(math.isfinite(v) for v in q):
+            cnt += 1
+            nxt = next((f[0] for f in evs[j + 1:] if f[0] != 'stoptick'), None)
+            if nxt != 'dreset':
+                return (f'apply returned a non-finite direction {q} and PANOC did not reset the provider '
+                        f'(next event: {nxt})'), cnt
+            # the callback that reports this iteration is the next one
+            if it + 1 < len(r['cbs']) and r['cbs'][it + 1]['status'] == 'Busy' and r['cbs'][it + 1]['tau'] != 0:
+                return (f'iteration {r["cbs"][it + 1]["k"]} took τ = {r["cbs"][it + 1]["tau"]} with a non-finite '
+                        f'direction {q}'), cnt
+    return None, cnt
 
 
 def _cb_q_span(toks):
@@ -403,6 +460,12 @@ def fin(v):
     return all(math.isfinite(a) for a in v)
 
 
+def ex(name):
+    """A *counted* exemption: the monitor demands nothing here, and says why (evidence: dirs_monitor_counts)."""
+    bump('exempt_' + name)
+    return None
+
+
 def bits(v):
     return [f2h(a) for a in v]
 
@@ -463,12 +526,16 @@ def box_J(kv, gam, x, g):
     return J
 
 
-def dense_apply(hist, g0, q, n):
-    """exact H(g0; hist)·q and its conditioning scale, or None when undefined"""
+def dense_apply(hist, g0, q, n, who=''):
+    """exact H(g0; hist)·q and its conditioning scale, or None when the dense BFGS matrix does not exist:
+    a stored pair with ⟨y,s⟩ = 0 — the point excluded by `RunOK` (Props/C09) / `slbfgs_calls_runOK`
+    (Props/Directions); counted, never silent."""
     if any(L9.xdot(y, s_) == 0 for s_, y in hist):
+        bump('exempt_RunOK_zero_curvature_pair_in_history' + who)
         return None
     H0, H1, msg = L9.dense_pair(hist, n)
     if H0 is None:
+        bump('exempt_RunOK_zero_curvature_pair_in_history' + who)
         return None
     sc = L9.two_loop_scale(hist, g0, q)
     r = [sum((H0[i][j] + g0 * (H1[i][j] - H0[i][j])) * Fr(q[j]) for j in range(n)) for i in range(n)]
@@ -494,6 +561,33 @@ def in_span(cols, v):
                 M[i] = [a - f * b for a, b in zip(M[i], M[r])]
         r += 1
     return all(M[i][k] == 0 for i in range(r, n))
+
+
+def exact_ls(cols, b):
+    """Exact rational least squares min ‖A γ − b‖ (A = columns `cols`).  → (γ, cond estimate ‖G‖∞‖G⁻¹‖∞ of the
+    Gram matrix's square root, from the exact data) | None when A is rank deficient."""
+    K = len(cols)
+    if K == 0:
+        return None
+    G = [[L9.xdot(cols[i], cols[j]) for j in range(K)] for i in range(K)]
+    rhs = [L9.xdot(cols[i], b) for i in range(K)]
+    M = [G[i][:] + [Fr(int(i == j)) for j in range(K)] + [rhs[i]] for i in range(K)]
+    for c in range(K):
+        piv = next((r for r in range(c, K) if M[r][c] != 0), None)
+        if piv is None:
+            return None
+        M[c], M[piv] = M[piv], M[c]
+        pv = M[c][c]
+        M[c] = [a / pv for a in M[c]]
+        for r in range(K):
+            if r != c and M[r][c] != 0:
+                f = M[r][c]
+                M[r] = [a - f * b_ for a, b_ in zip(M[r], M[c])]
+    Ginv = [row[K:2 * K] for row in M]
+    gam = [row[2 * K] for row in M]
+    nG = max(sum(abs(v) for v in row) for row in G)
+    nGi = max(sum(abs(v) for v in row) for row in Ginv)
+    return gam, math.sqrt(float(nG * nGi))
 
 
 def close(got, exp, sc):
@@ -556,7 +650,7 @@ def _monitor(op, out, st):
     if kind == 'reset':
         st['hist'] = []
         if st['aa'] is not None:
-            st['aa'].update(g=st['aa']['g'][-1:], dr=[])
+            st['aa'].update(g=st['aa']['g'][-1:], dr=[], negf=False)
         return check_state(st, dt)
     if kind == 'chg':
         gam, old = t.flt(), t.flt()
@@ -570,8 +664,28 @@ def _monitor(op, out, st):
                 st['aa']['scaled'] = True
                 if not (math.isfinite(f) and f != 0):
                     st['aa']['poison'] = True
+                if not f > 0:
+                    # `scale_R` multiplies min_eig / max_eig by the factor too: on a fresh buffer max_eig = −∞
+                    # becomes +∞ (NaN for 0), so the pivot threshold max_eig·min_div_fac is +∞ and `solve_col`
+                    # skips every pivot until the next reset.  PANOC / ZeroFPR only pass step sizes γ > 0.
+                    st['aa']['negf'] = True
+                # documented: "rescale the buffer by a factor γ_k / γ_{k-1}" — every entry of R (and min/max_eig)
+                # multiplied by γ_new/γ_old, recomputed here from the op's own arguments
+                prev = st['aa'].get('last')
+                try:
+                    cur = parse_aa_dump(S.T(dump.split()))
+                except (ValueError, IndexError):
+                    cur = None
+                if prev and cur and cur.get('init') and prev.get('K') == cur.get('K') and prev['K'] > 0:
+                    Kk = prev['K']
+                    want = [prev['R'][k_ * Kk + i_] * f if i_ <= k_ else 0.0
+                            for k_ in range(Kk) for i_ in range(Kk)]
+                    if bits(cur['R']) != bits(want):
+                        return (f'AndersonDirection::changed_γ(γ={gam!r}, old={old!r}) with rescale_on_step_size_changes: '
+                                f'R = {cur["R"]}, expected the previous R times γ/γ_old = {f!r}: {want}')
+                    bump('anderson_chg_rescale_R_checked')
             else:
-                st['aa'].update(g=st['aa']['g'][-1:], dr=[])
+                st['aa'].update(g=st['aa']['g'][-1:], dr=[], negf=False)
             bump('anderson_chg_rescale' if rescale else 'anderson_chg_flush')
         # structured: nothing happens
         return check_state(st, dt)
@@ -630,16 +744,16 @@ def _monitor(op, out, st):
                 bump('lbfgs_apply_empty')
                 return None if bits(q) == bits(p) else 'LBFGSDirection::apply (empty buffer) did not leave q = p'
             if not allfin:
-                return None
+                return ex('lbfgs_nonfinite_input_or_history')
             s_n, y_n = hist[-1]
             if P['curv'] or gam < 0:
                 yy = L9.xdot(y_n, y_n)
                 if yy == 0:
-                    return None
+                    return ex('RunOK_zero_curvature_pair_in_history_lbfgs')
                 g0 = L9.xdot(y_n, s_n) / yy
             else:
                 g0 = Fr(gam)
-            da = dense_apply(hist, g0, p, n)
+            da = dense_apply(hist, g0, p, n, '_lbfgs')
             if da is None:
                 return None
             i = close(q, *da)
@@ -653,7 +767,7 @@ def _monitor(op, out, st):
             if m:
                 return m
             if not (fin(x) and fin(g) and math.isfinite(gam)):
-                return None
+                return ex('slbfgs_nonfinite_x_grad_gamma')
             J = box_J(kv, gam, x, g)
             K = [j for j in range(n) if j not in J]
             hvf = h2f(kv.get('hvf', f2h(0.0)))
@@ -666,23 +780,33 @@ def _monitor(op, out, st):
             if len(J) == n:
                 bump('slbfgs_J_full')
                 if not gam > 0:
-                    return None
+                    return ex('slbfgs_gamma_nonpositive')
                 rhs = [(1.0 / gam) * v for v in p]
                 if ok != bool(hist):
                     return f'StructuredLBFGSDirection::apply (all indices free) returned {ok} with {len(hist)} pairs'
                 if not hist:
                     return None if bits(q) == bits(rhs) else 'all indices free, empty buffer: q ≠ p/γ'
                 if not allfin:
-                    return None
+                    return ex('slbfgs_nonfinite_input_or_history')
+                if any(L9.xdot(y_, s_) == 0 for s_, y_ in hist):
+                    # THE reachable excluded point (audit-2 #3): the structured provider *forces* every pair in;
+                    # a pair with ⟨y,s⟩ = 0 (linear ψ: y = 0; zero step: s = 0) is stored with ρ = 1/0 and the
+                    # un-masked apply of the all-free branch returns a non-finite direction (PANOC's
+                    # q.allFinite() test rejects it and resets the provider: nonfinite_direction_monitor).
+                    # Hypothesis `hcurv` of Props/Directions.slbfgs_calls_runOK / C09 `RunOK`.
+                    bump('slbfgs_forced_zero_curvature_all_free_apply')
+                    bump('slbfgs_forced_zero_curvature_direction_nonfinite', int(not fin(q)))
+                    bump('slbfgs_forced_zero_curvature_direction_finite', int(fin(q)))
+                    return ex('RunOK_slbfgs_forced_zero_curvature')
                 s_n, y_n = hist[-1]
                 if P['curv'] or gam < 0:
                     yy = L9.xdot(y_n, y_n)
                     if yy == 0:
-                        return None
+                        return ex('RunOK_slbfgs_forced_zero_curvature')
                     g0 = L9.xdot(y_n, s_n) / yy
                 else:
                     g0 = Fr(gam)
-                da = dense_apply(hist, g0, rhs, n)
+                da = dense_apply(hist, g0, rhs, n, '_slbfgs_all_free')
                 if da is None:
                     return None
                 i = close(q, *da)
@@ -697,7 +821,7 @@ def _monitor(op, out, st):
                     return (f'StructuredLBFGSDirection::apply: active index {j} ∉ J={J}: q[{j}] = {q[j]!r} ≠ p[{j}] = '
                             f'{p[j]!r}')
             if not gam > 0:
-                return None
+                return ex('slbfgs_gamma_nonpositive')
             # right-hand side on J (the Hessian-vector product is what the problem returned: last inner call)
             Hq = None
             rhsJ = [(1.0 / gam) * p[j] for j in J]
@@ -747,10 +871,12 @@ def _monitor(op, out, st):
             if P['ce'] > 0:
                 return 'apply_masked did not throw although CBFGS is enabled'
             if not allfin or not fin(q):
-                return None
+                return ex('slbfgs_partial_nonfinite_input_history_or_result')
             decs = [L9.accept_exact(P, s_, y, 0.0, J) for s_, y in hist]
-            if any(a for _, a in decs) or P['mdf'] < 0:
-                return None
+            if any(a for _, a in decs):
+                return ex('slbfgs_partial_acceptance_threshold_within_rounding')
+            if P['mdf'] < 0:
+                return ex('slbfgs_partial_negative_min_div_fac')
             # (also without force_pos_def — repaired apply_masked: the scaling is that of the newest pair valid on
             # J whatever its sign, and the call fails only when no pair is valid on J)
             sub = [([s_[j] for j in J], [y[j] for j in J]) for (s_, y), (dd, _) in zip(hist, decs) if dd]
@@ -768,8 +894,9 @@ def _monitor(op, out, st):
             if not ok:
                 return f'StructuredLBFGSDirection::apply failed although {len(sub)} pairs are valid on J={J}'
             if rhsJ is None or not fin(rhsJ):
-                return None            # penalty terms added by hand: the J-part is covered by the correspondence
-            da = dense_apply(sub, g0, rhsJ, len(J))
+                # penalty terms added by hand: the J-part is covered by the correspondence only
+                return ex('slbfgs_partial_penalty_terms_added_by_hand')
+            da = dense_apply(sub, g0, rhsJ, len(J), '_slbfgs_masked')
             if da is None:
                 return None
             i = close([q[j] for j in J], *da)
@@ -811,16 +938,52 @@ def _monitor(op, out, st):
                     if zero and gam_ls[K - 1] != 0.0:
                         return f'zero residual difference (zero pivot) but γ_LS[{K - 1}] = {gam_ls[K - 1]!r} ≠ 0'
             if not (fin(gam_ls) and fin(q) and fin(x) and all(fin(c) for c in A['g'])):
-                return None
+                return ex('anderson_nonfinite_data')
+            # ---- γ_LS recomputed independently: exact rational least squares on the residual history the
+            #      monitor recorded from the op lines (never the object's own R / Q / γ_LS)
+            mdf = h2f(kv['amdf']) if 'amdf' in kv else 100 * EPS
+            if not tame:
+                bump('exempt_anderson_ls_untame_history')
+            elif A.get('negf'):
+                # hypothesis of `anderson_apply_least_squares_no_truncation` (no pivot at or below
+                # max_eig·min_div_fac) fails by construction: threshold +∞ / NaN after a factor γ/γ_old ≤ 0
+                bump('exempt_anderson_ls_nonpositive_rescale_factor')
+            elif mdf > 2.0 ** -19:
+                bump('exempt_anderson_ls_large_min_div_fac')       # pivots are truncated on purpose
+            else:
+                ref = exact_ls(A['dr'], p)
+                if ref is None:
+                    bump('exempt_anderson_ls_rank_deficient_window')   # minimiser not unique (C10: deflated window)
+                else:
+                    gs_, cond = ref
+                    if cond > 1e6:
+                        bump('exempt_anderson_ls_illconditioned_window')
+                    else:
+                        bump('anderson_gamma_ls_independent')
+                        sc = max([abs(v) for v in gs_] + [Fr(1, 2 ** 60)])
+                        for i_, (a, b) in enumerate(zip(gam_ls, gs_)):
+                            if abs(Fr(a) - b) > Fr(1, 2 ** 30) * Fr(cond) * sc:
+                                return (f'γ_LS[{i_}] = {a!r}, but the least-squares solution of min ‖ΔR γ − p‖ over the '
+                                        f'last {K} residual differences (exact rationals, from the op history) is '
+                                        f'{float(b)!r} (cond ≈ {cond:.3g})')
+                        # … and the direction from those independent coefficients
+                        alr = [gs_[0]] + [gs_[i] - gs_[i - 1] for i in range(1, K)] + [1 - gs_[K - 1]]
+                        Gr = A['g'][-(K + 1):]
+                        for j in range(n):
+                            e_ = sum(alr[i] * Fr(Gr[i][j]) for i in range(K + 1)) - Fr(x[j])
+                            mg = sum(abs(alr[i]) * abs(Fr(Gr[i][j])) for i in range(K + 1)) + abs(Fr(x[j]))
+                            if abs(Fr(q[j]) - e_) > Fr(1, 2 ** 30) * Fr(cond) * max(mg, Fr(1, 2 ** 200)):
+                                return (f'AndersonDirection::apply: q[{j}] = {q[j]!r}, but Σ αᵢ x̂ᵢ − x with the independently '
+                                        f'computed least-squares coefficients gives {float(e_)!r}')
             gq = [Fr(v) for v in gam_ls]
             al = [gq[0]] + [gq[i] - gq[i - 1] for i in range(1, K)] + [1 - gq[K - 1]]
             G = A['g'][-(K + 1):]
             for j in range(n):
-                ex = sum(al[i] * Fr(G[i][j]) for i in range(K + 1)) - Fr(x[j])
+                exq = sum(al[i] * Fr(G[i][j]) for i in range(K + 1)) - Fr(x[j])
                 mag = sum(abs(al[i]) * abs(Fr(G[i][j])) for i in range(K + 1)) + abs(Fr(x[j])) + \
                     sum(abs(v) for v in gq) * max(abs(Fr(G[i][j])) for i in range(K + 1))
-                if abs(Fr(q[j]) - ex) > 8 * (K + 3) * EPS * float(mag) + 1e-300:
-                    return (f'AndersonDirection::apply: q[{j}] = {q[j]!r} is not (Σ αᵢ x̂ᵢ − x)[{j}] = {float(ex)!r} '
+                if abs(Fr(q[j]) - exq) > 8 * (K + 3) * EPS * float(mag) + 1e-300:
+                    return (f'AndersonDirection::apply: q[{j}] = {q[j]!r} is not (Σ αᵢ x̂ᵢ − x)[{j}] = {float(exq)!r} '
                             f'with α from γ_LS = {gam_ls}')
             bump('anderson_apply_affine')
             return None
@@ -829,6 +992,16 @@ def _monitor(op, out, st):
 
 def check_state(st, dt):
     """The accelerator inside the provider holds what the documented bookkeeping says."""
+    m = _check_state(st, dt)
+    if st['d'] == 'anderson' and st.get('aa') is not None:
+        try:
+            st['aa']['last'] = parse_aa_dump(S.T(list(dt.t)))
+        except (ValueError, IndexError):
+            st['aa']['last'] = None
+    return m
+
+
+def _check_state(st, dt):
     d = st['d']
     if d in ('lbfgs', 'slbfgs'):
         try:
@@ -891,6 +1064,20 @@ def monitor(op, out, st):
 
 
 # ------------------------------------------------------------------ the check
+
+# classes the op-sequence generator must reach in every run (audit-2 addendum: a class that was never exercised
+# is a broken tie, not a pass)
+REQUIRED_COVERAGE = [
+    'noop_apply', 'lbfgs_apply_dense', 'lbfgs_apply_empty', 'lbfgs_upd_rejected', 'lbfgs_wraparound',
+    'lbfgs_chg_rescale', 'lbfgs_chg_flush',
+    'slbfgs_J_empty', 'slbfgs_J_full', 'slbfgs_J_partial', 'slbfgs_partial_dense', 'slbfgs_fd_point',
+    'slbfgs_hv_ihessL', 'slbfgs_hv_ihesspsi', 'slbfgs_failure_policy_0', 'slbfgs_failure_policy_1',
+    'slbfgs_fallback_exact', 'slbfgs_wraparound', 'slbfgs_cbfgs_throw',
+    'slbfgs_forced_zero_curvature_all_free_apply',
+    'anderson_apply_affine', 'anderson_gamma_ls_independent', 'anderson_zero_difference',
+    'anderson_dependent_difference', 'anderson_chg_rescale_R_checked', 'anderson_chg_flush',
+    'anderson_apply_before_init',
+]
 
 TRUSTED = [
     'Lean 4.33 kernel + Mathlib (axioms: propext, Classical.choice, Quot.sound)',
@@ -999,6 +1186,12 @@ def _run_stages(rep, broken, thorough):
                 if bad >= 3:
                     break
         rep.cov['dirs_monitor_counts'] = dict(sorted(STATS.items()))
+        rep.cov['dirs_exemptions'] = {k: v for k, v in sorted(STATS.items()) if k.startswith('exempt_')}
+        missing = [k for k in REQUIRED_COVERAGE if STATS.get(k, 0) == 0]
+        rep.cov['dirs_required_coverage'] = {k: STATS.get(k, 0) for k in REQUIRED_COVERAGE}
+        if missing and not err and i is None:
+            broken.append('[dirs] required coverage classes never exercised by the generated op sequences: '
+                          + ', '.join(missing))
         per = {}
         for o in ops:
             if o.startswith('new '):
@@ -1028,7 +1221,24 @@ def _run_stages(rep, broken, thorough):
             except Exception:
                 pass
             inner += h.count(' ; EV i')
-        rep.cov['loopfull'].update(per_provider=per, iterations=its, inner_problem_calls=inner)
+        nonfin = 0
+        linear = 0
+        for o, h in zip(ops, r['hout']):
+            linear += ' linear=1' in o
+            try:
+                msg, c_ = nonfinite_direction_monitor(o, h)
+            except Exception as e:
+                msg, c_ = f'monitor could not read the run output: {e!r}', 0
+            nonfin += c_
+            if msg:
+                rep.violation('[dirs] monitor (PANOC run): ' + msg, {'op': o, 'impl_out': h[:4000]}, True)
+                found = True
+                break
+        rep.cov['loopfull'].update(per_provider=per, iterations=its, inner_problem_calls=inner,
+                                   linear_psi_runs=linear, nonfinite_directions_rejected=nonfin)
+        if nonfin == 0 and not r['bad']:
+            broken.append('[dirs] required coverage: no PANOC run produced a non-finite direction (forced '
+                          'zero-curvature pair of StructuredLBFGSDirection on a linear ψ)')
         rep.cov['traces_validated_against_impl'] = rep.cov.get('traces_validated_against_impl', 0) + \
             (r['n'] - r['bad'] - r['skipped'])
         rep.note(f'[dirs] oracle-free PANOC replay: {r["n"]} runs {per}, {its} iterations, {inner} problem calls inside '
